@@ -513,7 +513,9 @@ def run(ctx):
         ctx.ob("C05.3", "%s|passes-own-status" % raw_print.id, "the decision is made on the response's own status code", M.status_f in origin_fields(o["status"]), rf.loc(bb), origin_str(o["status"]))
         if "headers" in o:
             ctx.ob("C05.3", "%s|passes-request-headers" % raw_print.id, "... on the request's headers", any(x == ("arg", 4) for x in origin_walk(o["headers"])), rf.loc(bb), origin_str(o["headers"]))
-        ctx.ob("C05.3", "%s|passes-request-version" % raw_print.id, "... on the request's HTTP version", any(x == ("arg", 3) for x in origin_walk(o["version"])), rf.loc(bb), origin_str(o["version"]))
+        ctx.ob("C05.3", "%s|passes-request-version" % raw_print.id, "... on the request's HTTP version, as given (not raised, lowered or replaced on the way: an HTTP/1.0 client must be answered as one)",
+               any(x == ("arg", 3) for x in origin_walk(o["version"])) and not [x for x in origin_walk(o["version"]) if x[0] == "call" and not re.search(r"(::clone|::deref|::borrow|::as_ref|::into|::from|::to_owned)$", x[1])],
+               rf.loc(bb), origin_str(o["version"]))
         ctx.ob("C05.3", "%s|passes-declared-length" % raw_print.id, "... on the response's declared length", M.dlen_f in origin_fields(o["length"]), rf.loc(bb), origin_str(o["length"]))
         getter_, setter_, thr_fields_ = threshold_api(facts, M)
         tf_names = {fld for owner, fld in thr_fields_}
